@@ -39,6 +39,13 @@ def build_harness():
     return rc == 0, (out + err)
 
 
+def build_race():
+    """harness/race built with the race detector against /repo's current working tree (C10)."""
+    hd = os.path.join(ROOT, 'harness')
+    rc, out, err = sh(['go', 'build', '-race', '-tags', 'verif', '-o', os.path.join(ROOT, 'build', 'lwrace'), './race'], cwd=hd, env=dict(GOENV, CGO_ENABLED='1'), timeout=1200)
+    return rc == 0, (out + err)
+
+
 def regenerate():
     """translator: rewrite lean/LW/Generated from the current source."""
     rc, out, err = sh([HARNESS, 'dump', os.path.join(LEAN, 'LW', 'Generated')], env=GOENV, timeout=600)
